@@ -121,6 +121,7 @@ func checkC05(p *core.Program, r *core.Report) {
 	r.Rule("O5.1", "parameter tables are never written outside package initialisation")
 	r.Rule("O5.2", "wrappers: fresh [0, inputs…] state in field order, output = element 0")
 	r.Rule("O5.3", "slices handed to in-place gadget fields are dead in the caller after the call")
+	r.Rule("O5.5", "no big.Int of the parameter tables is copied by value and then mutated (the copy shares the table entry's digit array), and no copy is kept while its source is mutated")
 	r.Rule("O5.4", "round schedule, constant offsets, S-box degree, partial/full round shape, MDS orientation, RF/RP values")
 	r.Trusted = append(r.Trusted, "the constant tables' numerical values (exercised by the package's three vectors)", "gnark Add/Mul semantics")
 	r.NotDecided = append(r.NotDecided, "equality with the reference Poseidon on all inputs (numerical)")
@@ -145,6 +146,7 @@ func checkC05(p *core.Program, r *core.Report) {
 	}
 	sort.Slice(tables, func(i, j int) bool { return tables[i].Name() < tables[j].Name() })
 	r.Count("parameter tables", len(tables))
+	checkBigIntAliasing(p, r, "O5.5", func(path string) bool { return strings.HasSuffix(path, "/poseidon") || strings.HasSuffix(path, "/keccak") })
 	r.Floor("parameter tables", 6)
 	isTable := map[*ssa.Global]bool{}
 	for _, t := range tables {
